@@ -89,6 +89,13 @@ CLAIMED["C10"] = ("DESIGN.md §4 C10",
     "read_exact mapped to an error; unmasking uses key[i % 4]; Message::to_frame picks Text/Binary by the text flag and serialises the frame. The byte-level round trip for all "
     "payloads is not decided.")
 
+CLAIMED["C11"] = ("DESIGN.md §4 C11",
+    "R-FLOW provenance of every byte written to a WebsocketStream's inner stream (incl. callers of send_raw), R-DOM (handshake under the key's Some edge; replies under opcode facts), fmt-template decoding for key+GUID, R-SIBLING blocking vs non-blocking receive, R-PARTIALREAD",
+    "Decides: everything written on an upgraded connection is Vec<u8>::from(Frame) / Message::to_frame output, never a bare payload; the handshake answers 101 only when "
+    "Sec-WebSocket-Key is present, with Accept = base64(sha1(key + RFC 6455 GUID)), and the user handler runs only after it succeeded; in both receive variants Ping -> Pong "
+    "with the same payload, Close -> Close + ConnectionClosed, Pong -> nothing; control frames are not collected, fragments are concatenated in order, text/binary comes from the "
+    "first fragment; closed is set on ConnectionClosed and Drop sends a Close unless closed; the two receive variants agree; the non-blocking header read uses its count.")
+
 NOT_YET = {}
 
 NOT_APPLICABLE = {
